@@ -65,6 +65,20 @@ PROPS = {
         assumptions=ASSUME_WB + ["Clean is the exported function driven in-process with test.run/test.count set through the flag package; -run values always select every executed test"],
         stages=[dict(name="clean_keeps", run="^TestC07_", quick=400, thorough=4000, shards_quick=4, shards_thorough=16)],
     ),
+    "C08": dict(
+        rule="case = real test program (2-5 top-level tests with prefix/substring-related names TestAlpha/TestAlphaBeta/TestAl, TestBeta/TestB, ..., generated subtests up to depth 2, calls under default, shared custom Filename, custom Ext "
+             "and standalone configs) recorded once; second run with a generated subset of tests calling snaps.Skip/Skipf/SkipNow (before any or after some calls) and/or a generated -test.run (names, substrings, alternations, "
+             "multi-level patterns, anchors, patterns matching only a subtest name or a digit), Clean in report/clean mode x sort, plus stale entries of prefix siblings and children of skipped tests. "
+             "The program itself reports which tests started (the real runner is the oracle). Oracle: every item recorded for a test (or part of a test) that did not run survives byte-identically and is not listed; "
+             "conversely (no -run) stale entries not protected by a skip are reported/removed. Losses matching the signatures of known findings K2-K5 are exempted and counted; K2-K5 are probed by minimal programs. "
+             "non-trivial = a skip or a -run filter is present; distinct = distinct canonical JSON",
+        assumptions=["black-box: scenario program compiled against /repo; snapshot directory is the program's own __snapshots__ (cleaned between cases)",
+                     "known findings K2-K5 (DESIGN §7) are exempted by predicate: sole-owner files of skipped tests, whole-id regexp, non-default file names under -run, file heuristic"],
+        stages=[
+            dict(name="skipfilter", engine="bb", run="^TestC08_", quick=60, thorough=1500, shards_quick=8, shards_thorough=16),
+            dict(name="kprobes", engine="bb", run="^TestC08K", quick=1, thorough=1, shards_quick=1, shards_thorough=1),
+        ],
+    ),
     "C09": dict(
         rule="case = as C07 but -run empty, with skip-protected tests (snaps.Skip/Skipf/SkipNow before any or after some calls, always in files shared with running tests), "
              "stale entries (absent tests, ordinals beyond the calls), stale multi-entry and standalone files, unrelated files, sub-directories (one named sub.snap), an unaddressed directory, -count 1-3, all modes x sort. "
